@@ -344,3 +344,26 @@ def list_versions_replay(times, pages, start, end, marker=0):
     except Exception as e:  # noqa
         out["exc"] = f"{type(e).__name__}: {e}"
     return out
+
+
+def blocklisted_count_changes_other_categories(factor=50):
+    """nonparametric, outlier models on: multiply the count of ONE blocklisted reporting unit; no other unit may move"""
+    base = synthetic(80, seed=5, states=("AA",))
+    cur = feed(base, [100] * 60 + [30] * 20, seed=2)
+    blk = [base.geographic_unit_fips[7]]
+    out = {"exc": None}
+    try:
+        cats = []
+        for f in (1, factor):
+            c2 = cur.copy()
+            m = c2.geographic_unit_fips == blk[0]
+            for col in ("results_turnout", "results_dem", "results_gop"):
+                c2.loc[m, col] = c2.loc[m, col] * f
+            _, r = run_client(c2, base, estimands=("turnout",), prediction_intervals=(0.7,), model_parameters={"fit_margin_outlier_model": False, "fit_turnout_outlier_model": True, "unit_blocklist": blk})
+            cats.append(r["unit_data"].set_index("geographic_unit_fips")["unit_category"])
+        a, b = cats
+        others = [i for i in a.index if i != blk[0]]
+        out["changed_other_units"] = int((a.loc[others] != b.loc[others]).sum())
+    except Exception as e:  # noqa
+        out["exc"] = f"{type(e).__name__}: {e}"
+    return out
